@@ -51,6 +51,7 @@ def run(ns, op, timeout=120):
 # oracle
 # ---------------------------------------------------------------------------------------------
 BARE_ERROR_RE = __import__("re").compile(rb"^[^\n]*:\d+:\d+: Error: ", __import__("re").M)
+SHOWN_ERR_RE = __import__("re").compile(r"\x1b\[91mError\x1b\[0m in \x1b\[96m[^\x1b]*\x1b\[0m: \x1b\[38;5;208m\[-W([a-z0-9-]+)\]")
 MUT_OPS = ("create", "truncate", "open-rw", "write", "close")
 
 
@@ -260,6 +261,11 @@ def check_variant(obs0, obsv, fmt):
                       [p for p in a if obs0["changed"][p] != obsv["changed"][p]][:2]))
     if cliwork.strip_bare_diag_prefix(obs0["stdout"]) != cliwork.strip_bare_diag_prefix(obsv["stdout"]):
         v.append(("config-changes-stdout-image", "image bytes on stdout differ between configurations"))
+    # error-severity diagnostics SHOWN by the graphical handler (identifier list) must not depend on -W
+    sh0 = sorted(SHOWN_ERR_RE.findall(obs0["stderr"]))
+    sh1 = sorted(SHOWN_ERR_RE.findall(obsv["stderr"]))
+    if "\x1b[" in obs0["stderr"] and "\x1b[" in obsv["stderr"] and sh0 != sh1 and not obs0["internal_error"] and not obsv["internal_error"]:
+        v.append(("config-changes-shown-errors", "error diagnostics shown differ between -W selections: %s vs %s" % (sh0[:4], sh1[:4])))
     e0 = sorted(set(d[1] for d in obs0["diags"] if d[0] != "warning"))
     e1 = sorted(set(d[1] for d in obsv["diags"] if d[0] != "warning"))
     if e0 != e1:
